@@ -255,8 +255,14 @@ class _ReusablePoolExecutor(ProcessPoolExecutor):
                 time.sleep(1e-3)
 
             self._adjust_process_count()
-            processes = list(self._processes.values())
-            while not all(p.is_alive() for p in processes):
+            # Workers that time out or die while we wait are removed from
+            # self._processes by the executor manager thread (or the executor
+            # is flagged as broken): look at the current set of workers, not at
+            # a snapshot, so that this loop always terminates.
+            while (
+                not all(p.is_alive() for p in list(self._processes.values()))
+                and not self._flags.broken
+            ):
                 time.sleep(1e-3)
 
     def _wait_job_completion(self):
